@@ -73,7 +73,9 @@ pub fn run(ctx: &Ctx) -> ! {
         "non-recursive semantics as pinned by lib/tests/tests/expressions/assignment/read_only_nested.vrl: writes below a non-recursive read-only path are allowed and not judged".into(),
         "reach is that of the generator's small path vocabulary; this is not a program fuzzer".into(),
     ];
-    let verdict = rep.finish(ctx);
+    let mut verdict = rep.finish(ctx);
+    // a worker that could not run (spawn failure, wall-clock limit, garbled output) is a harness error, not a pass
+    verdict.harness_errors += ev.worker_errors as u32;
     ev.write(ctx, "exploration", verdict.violations, &verdict.known_seen);
     exit_with(&verdict)
 }
